@@ -5,6 +5,7 @@ package app
 import (
 	"context"
 	"fmt"
+	"net"
 	"os"
 	"path/filepath"
 	"sync"
@@ -21,7 +22,6 @@ import (
 	"github.com/dadrus/heimdall/internal/keyholder"
 	"github.com/dadrus/heimdall/internal/rules/mechanisms"
 	"github.com/dadrus/heimdall/internal/rules/rule"
-	"github.com/dadrus/heimdall/internal/x/testsupport"
 )
 
 const (
@@ -67,20 +67,58 @@ type App struct {
 
 var startMu sync.Mutex // logging.NewLogger writes zerolog globals: construct apps sequentially
 
+var (
+	portMu   sync.Mutex
+	portNext int
+)
+
+// FreePort hands out ports that are free right now and never twice within this process. heimdall terminates the
+// process (logger.Fatal) if a listener cannot bind, so two instances constructed concurrently must never be given
+// the same port, which "listen on :0, close, reuse the number" cannot guarantee.
+func FreePort() (int, error) {
+	portMu.Lock()
+	defer portMu.Unlock()
+	if portNext == 0 {
+		// below the kernel's ephemeral range (32768-60999), which other processes on the machine draw from
+		portNext = 20000 + (os.Getpid()*131)%11000
+	}
+	for tries := 0; tries < 4000; tries++ {
+		p := portNext
+		portNext++
+		if portNext > 32000 {
+			portNext = 20000
+		}
+		l, err := net.Listen("tcp", fmt.Sprintf("127.0.0.1:%d", p))
+		if err != nil {
+			continue
+		}
+		_ = l.Close()
+		return p, nil
+	}
+	return 0, fmt.Errorf("no free port found")
+}
+
+// ParallelStarts lifts the serialisation of instance construction. heimdall's logging.NewLogger writes zerolog package
+// globals (always the same values); constructing instances concurrently is therefore a benign race, which a -race
+// build would nevertheless report - only non-race harnesses may set this.
+var ParallelStarts bool
+
 // New builds and starts an instance. The caller must call Stop.
 func New(o Options) (*App, error) {
-	startMu.Lock()
-	defer startMu.Unlock()
+	if !ParallelStarts {
+		startMu.Lock()
+		defer startMu.Unlock()
+	}
 
 	dir, err := os.MkdirTemp(os.Getenv("VERIF_RUNDIR"), "app-")
 	if err != nil {
 		return nil, err
 	}
 	a := &App{Dir: dir}
-	if a.Port, err = testsupport.GetFreePort(); err != nil {
+	if a.Port, err = FreePort(); err != nil {
 		return nil, err
 	}
-	if a.MgmtPort, err = testsupport.GetFreePort(); err != nil {
+	if a.MgmtPort, err = FreePort(); err != nil {
 		return nil, err
 	}
 	mode := config.DecisionMode
